@@ -120,6 +120,10 @@ func mkErr(kind int, msg string, n int) error {
 		return &valReg{msg} // pointer to a value-registered type: a different key
 	case 10:
 		return valReg{msg}
+	case 11: // a registered marshalable error wrapped by the handler: the dynamic type returned is not registered
+		return fmt.Errorf("ctx: %w", &marshErr{msg, n})
+	case 12: // a codec error wrapped
+		return fmt.Errorf("ctx: %w", &codecErr{C: 41, M: msg})
 	}
 	return nil
 }
@@ -222,7 +226,7 @@ func errorsFamily(seed uint64, tier string, args []string) {
 			if err != nil {
 				panic(err)
 			}
-			for kind := 0; kind <= 10; kind++ {
+			for kind := 0; kind <= 12; kind++ {
 				for mi, msg := range msgs {
 					if tier == "quick" && (kind+mi+ri)%3 != 0 && mi > 1 {
 						continue
@@ -272,6 +276,8 @@ func errorsFamily(seed uint64, tier string, args []string) {
 							c.Oracle = fmt.Sprintf("caller got an error and a non-zero value %d", c.Val)
 						case kind == 0 && shape == "valerr" && c.Val != 5:
 							c.Oracle = fmt.Sprintf("handler returned 5, caller got %d", c.Val)
+						case (kind == 11 || kind == 12) && e != nil && (c.Type != "*jsonrpc.JSONRPCError" || e.Error() != "ctx: "+msg || !strings.Contains(c.Fields, `"code":1,`)):
+							c.Oracle = fmt.Sprintf("an unregistered (wrapping) error did not arrive as the generic error with code 1 and its message: %s %q %s", c.Type, e.Error(), c.Fields)
 						case kind == 8 && e != nil && (c.Type != "*jsonrpc.JSONRPCError" || e.Error() != msg):
 							c.Oracle = fmt.Sprintf("unregistered error did not arrive as the generic error with its message: %s %q", c.Type, e.Error())
 						case rel.name == "same" && kind == 3 && (c.Type != "*main.marshErr" || c.Fields != fmt.Sprintf(`{"M":%s,"N":%d}`, mustQ(msg), n)):
